@@ -7,6 +7,12 @@ def handle : List String → Option String
   | ["c18.fmt", y, mo, d, h, mi, s] => do
       let y ← y.toNat?; let mo ← mo.toNat?; let d ← d.toNat?; let h ← h.toNat?; let mi ← mi.toNat?; let s ← s.toNat?
       pure (encStr (fmt ⟨y, mo, d, h, mi, s⟩))
+  | ["c18.fmtaware", y, mo, d, h, mi, s, off] => do
+      let y ← y.toNat?; let mo ← mo.toNat?; let d ← d.toNat?; let h ← h.toNat?; let mi ← mi.toNat?; let s ← s.toNat?
+      let off ← off.toInt?
+      match writeAware ⟨y, mo, d, h, mi, s⟩ off with
+      | some t => pure (encStr t)
+      | none => pure "overflow"
   | ["c18.read", s] => do
       let s ← decStr s
       match readW3C s with
